@@ -26,7 +26,7 @@ pub fn meta() -> PropMeta {
     PropMeta {
         id: "C19",
         level: "exploration",
-        rule: "(listener) a real ConnectionAcceptor configured with PLAIN or SCRAM-SHA-1/256/512 (one acceptor object per mechanism, reused across cases as a server reuses it across connections) faces a scripted client executing a generated sequence of up to 7 steps from: protocol header (SASL, AMQP, TLS, garbage), sasl-init with a generated mechanism name (configured, other mechanisms, case variants, empty) and credentials (user and password each exact / prefix / extended / one byte changed / embedded NUL / empty / unknown; authzid present or not; extra NUL-separated field), sasl-response (valid proof for the actual exchange, proof for a wrong password, bit-flipped proof, wrong nonce, garbage, empty, a recorded response from an earlier successful exchange), server-direction SASL frames, an AMQP open during SASL, AMQP header + open, EOF; optionally after a complete valid exchange on a first connection whose client bytes are replayed on the second. A model decides whether the script is exactly one valid authentication (SASL header, init with the configured mechanism and exact credentials, for SCRAM the valid response to the listener's own challenge, then AMQP header + open). Oracle: accept() returns Ok iff the model says authenticated; otherwise accept() fails (and completes once the client goes away), the listener never writes an OK outcome, an AMQP protocol header or an AMQP frame; two server-first messages for the same client-first differ (fresh server nonce). (client) the real client with SaslProfile Plain / ScramSha1/256/512 faces a scripted server with generated behaviour: header kind, mechanism list, per client frame a reply from {challenge with nonce extending / not extending / equal to the client's, salt and iteration count, outcome with code 0..4 and additional-data = signature computed over the actual exchange with the sent salt/iterations and the right password / wrong password / other salt / other iteration count / other nonce, missing, garbage; extra challenge}. Oracle: open_with_stream() returns Ok iff the server's behaviour is a valid exchange (SASL header, mechanism offered, for SCRAM: nonce strictly extends the client's, signature valid for what was actually sent, outcome OK carrying it; for PLAIN: outcome OK), and fails otherwise. Non-trivial: the script got as far as a sasl-init (listener) / a reply to the client's init (client) — distinct by hash of the case.",
+        rule: "(listener) a real ConnectionAcceptor configured with PLAIN or SCRAM-SHA-1/256/512 (one acceptor object per mechanism, reused across cases as a server reuses it across connections) faces a scripted client executing a generated sequence of up to 7 steps from: protocol header (SASL, AMQP, TLS, garbage), sasl-init with a generated mechanism name (configured, other mechanisms, case variants, empty) and credentials (user and password each exact / prefix / extended / one byte changed / embedded NUL / empty / unknown; authzid present or not; extra NUL-separated field), sasl-response (valid proof for the actual exchange, proof for a wrong password, bit-flipped proof, wrong nonce, garbage, empty, a recorded response from an earlier successful exchange), server-direction SASL frames, an AMQP open during SASL, AMQP header + open, EOF; optionally after a complete valid exchange on a first connection whose client bytes are replayed on the second. A model decides whether the script is exactly one valid authentication (SASL header, init with the configured mechanism and exact credentials, for SCRAM the valid response to the listener's own challenge, then AMQP header + open). Oracle: accept() returns Ok iff the model says authenticated; otherwise accept() fails (and completes once the client goes away), the listener never writes an OK outcome, an AMQP protocol header or an AMQP frame; two server-first messages for the same client-first differ (fresh server nonce). (client) the real client with SaslProfile Plain / ScramSha1/256/512 faces a scripted server with generated behaviour: header kind, mechanism list, per client frame a reply from {challenge with nonce extending / not extending / equal to the client's, salt and iteration count, outcome with code 0..4 and additional-data = signature computed over the actual exchange with the sent salt/iterations and the right password / wrong password / other salt / other iteration count / other nonce, bit-flipped, truncated to a proper prefix (incl. empty), missing, garbage; extra challenge}. Oracle: open_with_stream() returns Ok iff the server's behaviour is a valid exchange (SASL header, mechanism offered, for SCRAM: nonce strictly extends the client's, signature valid for what was actually sent, outcome OK carrying it; for PLAIN: outcome OK), and fails otherwise. Non-trivial: the script got as far as a sasl-init (listener) / a reply to the client's init (client) — distinct by hash of the case.",
         assumptions: &["iteration counts sent to the client are kept <= 20000 (a huge count only costs time)", "user names without ',' and '=' (no SCRAM escaping)"],
         nontrivial_floor: 0.4,
         run,
@@ -582,6 +582,9 @@ pub enum SigKind {
     Garbage(Vec<u8>),
     /// "e=..." server error attribute
     ErrorAttr,
+    /// only the first k octets of the valid signature (k < its length, possibly 0), optionally followed
+    /// by an extension attribute
+    Truncated(u8, bool),
 }
 
 #[derive(Clone, Debug, Serialize, Deserialize, Hash, PartialEq, Eq)]
@@ -608,7 +611,7 @@ pub struct CaseB {
 }
 
 pub fn case_b_strategy() -> BoxedStrategy<CaseB> {
-    let sig = prop_oneof![6 => Just(SigKind::Valid), 1 => Just(SigKind::WrongPassword), 1 => Just(SigKind::OtherSalt), 1 => Just(SigKind::OtherIterations), 1 => Just(SigKind::OtherNonce), 1 => any::<u8>().prop_map(SigKind::Flipped), 1 => Just(SigKind::Missing), 1 => vec(any::<u8>(), 0..30).prop_map(SigKind::Garbage), 1 => Just(SigKind::ErrorAttr)];
+    let sig = prop_oneof![6 => Just(SigKind::Valid), 1 => Just(SigKind::WrongPassword), 1 => Just(SigKind::OtherSalt), 1 => Just(SigKind::OtherIterations), 1 => Just(SigKind::OtherNonce), 1 => any::<u8>().prop_map(SigKind::Flipped), 1 => Just(SigKind::Missing), 1 => vec(any::<u8>(), 0..30).prop_map(SigKind::Garbage), 1 => Just(SigKind::ErrorAttr), 2 => (any::<u8>(), any::<bool>()).prop_map(|(k, e)| SigKind::Truncated(k, e))];
     let chal = (prop_oneof![6 => Just(NonceKind::Extends), 1 => Just(NonceKind::Same), 1 => Just(NonceKind::Different), 1 => Just(NonceKind::Truncated)], prop_oneof![4 => 1u32..64, 1 => Just(4096u32), 1 => Just(1u32), 1 => Just(20000u32)], prop_oneof![4 => 8u8..33, 1 => Just(0u8), 1 => Just(1u8)], prop::bool::weighted(0.05)).prop_map(|(nonce, iters, salt_len, garbage)| Reply::Challenge { nonce, iters, salt_len, garbage });
     let outcome = (prop_oneof![6 => Just(0u8), 1 => Just(1u8), 1 => Just(2u8), 1 => Just(3u8), 1 => Just(4u8)], sig).prop_map(|(code, sig)| Reply::Outcome { code, sig });
     let reply = prop_oneof![3 => chal.clone(), 4 => outcome.clone(), 1 => Just(Reply::Nothing)];
@@ -731,6 +734,11 @@ pub async fn run_b(c: &CaseB) -> Result<InfoB, String> {
                             SigKind::Missing => None,
                             SigKind::Garbage(g) => Some(g.clone()),
                             SigKind::ErrorAttr => Some(b"e=invalid-proof".to_vec()),
+                            SigKind::Truncated(k, ext) => {
+                                let s = good(PASS, salt, *iters, &auth);
+                                let keep = (*k as usize * s.len()) >> 8; // 0..len-1
+                                Some(format!("v={}{}", refscram::b64(&s[..keep]), if *ext { ",x=1" } else { "" }).into_bytes())
+                            }
                         }
                     }
                     _ => match sig {
